@@ -1155,6 +1155,17 @@ def judge_C09(W, ex):
             if e[2] == 'guard' and e[3] == pid and not e[4] and e[5] >= 25.0 and e[0] < term_step:
                 bad('C09.g', 'recycled-worker-waited-out-guard:%s' % guard_cause(W, pid),
                     'worker %d waited %.1fs for its results to be consumed' % (pid, e[5]))
+    # leaving on schedule (quota, memory limit, sentinel) is not a restart: as long as no worker has ended any other
+    # way and nobody resized the pool, the restart limiter has nothing to count
+    first = next((e for e in k.log if e[2] == 'rs-step'), None)
+    if first is not None and not any(o[0] in ('grow', 'shrink') for u in W.case['users'] for o in u):
+        other = [pid for pid, w in W.workers.items()
+                 if w['proc'].status is not None and w['proc'].death_step < first[0] and
+                 w['proc'].status not in (('exit', 0), ('exit', EX_RECYCLE))]
+        if not other:
+            bad('C09.r', 'restart-budget-charged-for-scheduled-exit',
+                'the restart limiter was stepped (%s) at step %d although every worker that had ended by then left '
+                'with status 0 or the recycle status' % (first[9], first[0]))
     # each program executed exactly once unless its worker died inside it
     for uid, runs in ex.items():
         if len(runs) > 1:
